@@ -651,6 +651,70 @@ func runBodies(c *core.Check, rounds int) {
 	if remRounds < 10 {
 		remRounds = 10
 	}
+	// a SCHEMA object shared by many goroutines (as hcldec.ImpliedSchema results are: slices built
+	// with append, so with spare capacity): every goroutine expands the dynamic blocks of the shared
+	// parsed body with its own context, applies its own first-phase schema and then the shared
+	// second-phase schema to the remaining body. Each must see what it sees alone, and the shared
+	// schema must come back unchanged.
+	{
+		mk := func() *hcl.BodySchema {
+			sc := &hcl.BodySchema{Attributes: make([]hcl.AttributeSchema, 0, 16), Blocks: make([]hcl.BlockHeaderSchema, 0, 16)}
+			for _, n := range []string{"name", "all", "flat", "cond"} {
+				sc.Attributes = append(sc.Attributes, hcl.AttributeSchema{Name: n})
+			}
+			sc.Blocks = append(sc.Blocks, hcl.BlockHeaderSchema{Type: "blk", LabelNames: []string{"l"}})
+			return sc
+		}
+		firsts := []*hcl.BodySchema{
+			{Attributes: []hcl.AttributeSchema{{Name: "name"}}},
+			{Attributes: []hcl.AttributeSchema{{Name: "cond"}, {Name: "all"}}},
+			{Attributes: []hcl.AttributeSchema{{Name: "flat"}, {Name: "name"}, {Name: "cond"}}},
+			{Blocks: []hcl.BlockHeaderSchema{{Type: "blk", LabelNames: []string{"l"}}}},
+		}
+		twoPhase := func(g int, second *hcl.BodySchema) string {
+			exp := dynblock.Expand(nf.Body, bodyCtx(g))
+			_, rem, d1 := exp.PartialContent(firsts[g%len(firsts)])
+			c2, d2 := rem.Content(second)
+			var names []string
+			for n := range c2.Attributes {
+				names = append(names, n)
+			}
+			sort.Strings(names)
+			var parts []string
+			for _, b := range c2.Blocks {
+				parts = append(parts, fmt.Sprintf("%s%q", b.Type, b.Labels))
+			}
+			return fmt.Sprintf("attrs=%v blocks=%v diags=%v/%v", names, parts, e1.NormDiags(d1), e1.NormDiags(d2))
+		}
+		want := make([]string, nG)
+		for g := 0; g < nG; g++ {
+			want[g] = twoPhase(g, mk())
+		}
+		for r := 0; r < remRounds*4; r++ {
+			shared := mk()
+			got := make([]string, nG)
+			var wg sync.WaitGroup
+			for g := 0; g < nG; g++ {
+				wg.Add(1)
+				go func(g int) {
+					defer wg.Done()
+					got[g] = twoPhase(g, shared)
+				}(g)
+			}
+			wg.Wait()
+			c.Count("evaluations", nG)
+			for g := 0; g < nG; g++ {
+				if got[g] != want[g] {
+					c.Violation("shared-schema-result-differs/dynblock", fmt.Sprintf("second-phase schema shared by %d goroutines (dynamic-block expanded bodies, own contexts): goroutine %d sees %s; alone it sees %s", nG, g, got[g], want[g]), map[string]any{"kind": "shared-schema"})
+					return
+				}
+			}
+			if len(shared.Attributes) != 4 || len(shared.Blocks) != 1 || !reflect.DeepEqual(shared.Attributes[:4], mk().Attributes) {
+				c.Violation("shared-schema-modified/dynblock", fmt.Sprintf("the caller's schema was modified by Content: %+v", shared), map[string]any{"kind": "shared-schema"})
+				return
+			}
+		}
+	}
 	for _, kind := range []string{"native", "json", "merged"} {
 		want := project(fresh(kind))
 		for r := 0; r < remRounds; r++ {
